@@ -30,7 +30,7 @@ klass('_Neighbors',
            '[C03,hist.together] is_none(self.decisions) == is_none(self.contexts) and '
            'is_none(self.decisions) == is_none(self.rewards)',
            # C03: with an empty neighbourhood every arm's expectation is NaN
-           '[C03,nan.exp] ' + forall_arms('isnan(val(self.arm_to_expectation, a))'),
+           '[C03,C11,nan.exp] ' + forall_arms('isnan(val(self.arm_to_expectation, a))'),
            # C03: the empty-neighbourhood distribution covers the arms (broken by add_arm / remove_arm: known finding D13)
            '[C03,C08,arms.nhood.plen] is_none(self.no_nhood_prob_of_arm) or slen(self.no_nhood_prob_of_arm) == slen(self.arms)',
            # C14: once the neighbourhood policy has converted the rewards, the learning policy must not convert again
@@ -179,17 +179,17 @@ parallel_predict_contract('_KNearest', KNN_ROW, ['self.k <= slen(self.decisions)
 
 # ------------------------------------------------------------------------------------ arm changes (C03, C08)
 NB_MODS = ['self.arm_to_expectation{}', 'self.arm_to_status{}', 'self.lp.**']
-fn('base_mab.BaseMAB.add_arm', cls='_Neighbors', props='C03 C08 C14',
+fn('base_mab.BaseMAB.add_arm', cls='_Neighbors', props='C03 C08 C11 C14',
    params={'arm': 'arm', 'binarizer': 'opt:binarizer'},
    requires=['INV~arms', 'self.arms == appended(keys(self.arm_to_expectation), arm)',
              'not inkeys(self.arm_to_expectation, arm)',
              'keys(self.lp.arm_to_expectation) == keys(self.arm_to_expectation)'],
    modifies=NB_MODS,
    # INV includes nhood.plen: a configured empty-neighbourhood distribution no longer matches the arms (known finding D13)
-   ensures=['INV', '[C03,C08,neutral] isnan(val(self.arm_to_expectation, arm)) and ' + status_fresh('arm'),
+   ensures=['INV', '[C03,C08,C11,neutral] isnan(val(self.arm_to_expectation, arm)) and ' + status_fresh('arm'),
             '[C03,hist] self.decisions == old(self.decisions) and self.rewards == old(self.rewards) and '
             'self.contexts == old(self.contexts)'])
-fn('base_mab.BaseMAB.remove_arm', cls='_Neighbors', props='C03 C08',
+fn('base_mab.BaseMAB.remove_arm', cls='_Neighbors', props='C03 C08 C11',
    params={'arm': 'arm'},
    requires=['INV~arms', 'self.arms == removed(keys(self.arm_to_expectation), arm)', 'inkeys(self.arm_to_expectation, arm)',
              'keys(self.lp.arm_to_expectation) == keys(self.arm_to_expectation)',
